@@ -158,6 +158,7 @@ func cmdMutants(args []string) int {
 			Also     []string `json:"also_checks"`
 			Tier     string   `json:"tier"`
 			What     string   `json:"what"`
+			ExpectMissed bool `json:"expect_missed"`
 		}
 		data, err := os.ReadFile(filepath.Join(dir, e.Name(), "meta.json"))
 		if err != nil || json.Unmarshal(data, &meta) != nil {
@@ -200,6 +201,12 @@ func cmdMutants(args []string) int {
 		os.RemoveAll(scratch)
 		if len(caughtBy) > 0 {
 			verdict = "caught by " + strings.Join(caughtBy, ",")
+			if meta.ExpectMissed {
+				verdict += " (UNEXPECTED: this change does not break the property; the check is over-strict)"
+				missed++
+			}
+		} else if meta.ExpectMissed {
+			verdict = "not reported (as expected: the change does not break the property)"
 		} else {
 			missed++
 		}
